@@ -420,4 +420,5 @@ Definition cmdset_of (s : cset) : cmdset :=
   {| cs_names := set_names s;
      cs_list_help := list_commands_set s;
      cs_cmd_help := fun n a => match cmd_help_set s n a with Some (Some h) => Some h | _ => None end;
-     cs_parse := fun n a => match parse_set s n a with PErr e => Some e | _ => None end |}.
+     cs_parse := fun n a => match parse_set s n a with PErr e => Some e | _ => None end;
+     cs_fail := fun _ _ _ => None |}.
